@@ -262,6 +262,13 @@ func manageCanaryPodFailures(pods []*v1.Pod, params *Parameters, result *Result,
 		}
 	}
 
+	// Unpausing is a manual action: it must also be honoured when no canary pod can be evaluated yet
+	// (otherwise a canary paused before its first pod exists could never be resumed).
+	if len(pods) == 0 && result.IsUnpaused && !result.IsFailed {
+		result.IsPaused = false
+		result.PausedReason = ""
+	}
+
 	// Update Failed and Paused condition
 	conditions.UpdateExtendedDaemonSetReplicaSetStatusCondition(result.NewStatus, metav1.NewTime(now), v1alpha1.ConditionTypeCanaryFailed, conditions.BoolToCondition(result.IsFailed), string(result.FailedReason), "", false, true)
 	conditions.UpdateExtendedDaemonSetReplicaSetStatusCondition(result.NewStatus, metav1.NewTime(now), v1alpha1.ConditionTypeCanaryPaused, conditions.BoolToCondition(result.IsPaused), string(result.PausedReason), "", false, true)
